@@ -11,6 +11,7 @@ cat > main.c <<EOM
 #include "vp_rt.h"
 void F_$entry(void);
 int main(void) { vp_rt_init(); vp_init_globals(); F_$entry();
+  VP_CHECK(!vp_exc_pending, "exc.uncaught_exception_escapes_harness"); VP_ASSUME(!vp_exc_pending);
 #ifdef VP_WITNESS
   __CPROVER_assert(0, "witness.reached_end");
 #endif
